@@ -57,9 +57,13 @@ class FieldSetup:
         """an arbitrary Python int (possibly negative or > p), read modulo p"""
         return Fld(R(Poly.var(name)), self.K, reduced=False)
 
-    def sym_fqp(self, prefix):
-        """a valid FQP element: built by the real constructor from reduced coefficients"""
-        cs = [Fld(R(Poly.var(f"{prefix}{i}")), self.K, reduced=True) for i in range(self.d)]
+    def sym_fqp(self, prefix, fq_coeffs=False):
+        """a valid FQP element: built by the real constructor from reduced coefficients (plain ints, or — a representation the
+        optimized classes accept as well — FQ objects)"""
+        if fq_coeffs:
+            cs = [self.sym_fq(f"{prefix}{i}") for i in range(self.d)]
+        else:
+            cs = [Fld(R(Poly.var(f"{prefix}{i}")), self.K, reduced=True) for i in range(self.d)]
         return self.it.instantiate(self.GX, [cs], {})
 
 
@@ -503,18 +507,18 @@ def _fqp_env(ctx, path, modname, d, top=None):
     return it, fs, W
 
 
-def u_fqp_linear(ctx, modname, d):
+def u_fqp_linear(ctx, modname, d, fq_coeffs=False):
     base = f"{modname}.FQP"
 
     def run(meth, operand):
-        name = f"{base}.{meth}[d={d}]"
+        name = f"{base}.{meth}[d={d}" + (",FQ-object coefficients]" if fq_coeffs else "]")
 
         def body(path):
             it, fs, W = _fqp_env(ctx, path, modname, d)
-            x = fs.sym_fqp("a")
+            x = fs.sym_fqp("a", fq_coeffs)
             A = fqp_poly(x, W, fs.K)
             if operand == "same":
-                y = fs.sym_fqp("b")
+                y = fs.sym_fqp("b", fq_coeffs)
                 B = fqp_poly(y, W, fs.K)
             elif operand == "int":
                 y = fs.sym_int("k")
@@ -644,6 +648,12 @@ for _mod, _tag in ((REF, "ref"), (OPT, "opt")):
             f"{_tag}.FQP.consts.d{_d}", u_fqp_consts,
             [f"{_mod}.FQP.{m}" for m in ("one", "zero", "__init__")] + [f"{_mod}.FQ{_d}.__init__"],
             props=("C08", "C14"), args=(_mod, _d))
+for _d in (2, 12):
+    # the optimized classes also accept FQ objects as coefficients (IntOrFQ): same contract, that representation
+    UNITS[f"opt.FQP.linear.d{_d}.fqcoeffs"] = Unit(
+        f"opt.FQP.linear.d{_d}.fqcoeffs", u_fqp_linear,
+        [f"{OPT}.FQP.{m}" for m in ("__add__", "__sub__", "__neg__", "__mul__", "__rmul__", "__div__", "__truediv__", "__eq__", "__ne__")],
+        props=("C08", "C14"), args=(OPT, _d, True))
 for _d in (2, 12):
     UNITS[f"opt.FQP.mc_tuples.d{_d}"] = Unit(f"opt.FQP.mc_tuples.d{_d}", u_fqp_mc_tuples, [f"{OPT}.FQ{_d}.__init__"],
                                              props=("C08", "C14"), args=(_d,))
